@@ -14,7 +14,8 @@ QUICK = dict(worlds=16, runs=2500, seconds=15)
 THOROUGH = dict(worlds=256, runs=6000, seconds=28)
 
 BBTYPES = {"bbA": [["a", "b"], ["y"]], "bbB": [["d"], ["q", "qn"]], "bbC": [["p"], ["z"]],
-           "bbD": [["a", "y"], ["y"]]}     # malformed on purpose: pin y listed in both directions (an invalid argument)
+           "bbD": [["a", "y"], ["y"]],     # malformed on purpose: pin y listed in both directions (an invalid argument)
+           "bbE": [["p"], ["k.z"]]}        # a pin named like the pin of a nested instance (what a child exporting one needs)
 
 CHILDREN = {
     "ch1": {"name": "ch1", "bbs": {}, "nodes": {
@@ -29,13 +30,17 @@ CHILDREN = {
     "ch5": {"name": "ch5", "bbs": {}, "nodes": {
         "a": ["input", [], False], "b": ["input", [], False], "t": ["xor", ["a", "b"], False],
         "y": ["nand", ["t", "a"], True]}},
+    # a child that exports the output pin of a nested blackbox, which also drives logic inside the child
+    "ch7": {"name": "ch7", "bbs": {"k": ["bbC", ["p"], ["z"]]}, "nodes": {
+        "p": ["input", [], False], "k.p": ["bb_input", ["p"], False], "k.z": ["bb_output", [], True],
+        "w": ["buf", ["k.z"], False]}},
     # node names that resemble instance names (first letters shared with "u", "m", "r_", "v")
     "ch6": {"name": "ch6", "bbs": {}, "nodes": {
         "u1": ["input", [], False], "m": ["not", ["u1"], False], "r_y": ["and", ["u1", "m"], True],
         "v": ["buf", ["m"], True]}},
 }
 CHILD_NODE_NAMES = sorted({n for ch in CHILDREN.values() for n in ch["nodes"] if "." not in n})
-CHILD_FOR_TYPE = {"bbA": ["ch1", "ch5", "ch4"], "bbB": ["ch2"], "bbC": ["ch3"], "bbD": ["ch1"]}
+CHILD_FOR_TYPE = {"bbA": ["ch1", "ch5", "ch4"], "bbB": ["ch2"], "bbC": ["ch3"], "bbD": ["ch1"], "bbE": ["ch7"]}
 
 BASE_NAMES = ["a", "b", "c", "d", "e", "f", "g", "h"]
 ODD_NAMES = ["3x", "u.y", "u.a", "u_a", "u_b", "u_y", "v_q", "v_b", "u_k", "zz"]
